@@ -136,6 +136,9 @@ def history_plan(rng, tier, levels, silent_streak=False, identity_changes=True, 
                 scripts[key] = {"replies": [{"k": "genuine", "rewrite": rw}] + ([{"k": "genuine", "delay_ns": 2_000_001}] if rng.random() < 0.7 else [])}
             elif r < 0.3:
                 scripts[key] = {"req": "drop"}
+            elif r < 0.38:
+                # a perfectly good answer whose header elements use long-form lengths
+                scripts[key] = {"replies": [{"k": "genuine", "rewrite": {"widths": gen.widths(rng, True)}}]}
         plan_ops.append(mine)
     while any(plan_ops):
         cand = [i for i, m in enumerate(plan_ops) if m]
